@@ -940,3 +940,136 @@ EF_WORKERS = {}
 
 def ef_dispatch(name, *args):
     return EF_WORKERS[name](*args)
+
+
+# ------------------------------------------------------------------ static lookup tables (C02_S table-binding, C02_S2 vk-vs-checker)
+# Shape keys understood by engines/symfield/src/shape.rs: "tables", "assign_order", "slookups", "lkcheat" (see its header).
+# A static table is a set of `meta.lookup_table_column()` columns filled through `layouter.assign_table`; the keygen side
+# (plonk/keygen.rs Assembly::assign_fixed + fill_from_row) and the checker side (dev/mod.rs) pad it separately.
+
+def _st(tables, slookups, nadv, gates=None, assign_order=None):
+    shape = {"adv": [0] * nadv, "nfix": 1, "ninst": 0, "chal": [], "gates": gates or [], "eq": [], "copies": [],
+             "tables": tables, "slookups": slookups}
+    if assign_order:
+        shape["assign_order"] = assign_order
+    return dict(shape=shape, np=1, nbc=0, lens=[])
+
+
+STATIC_SHAPES = {
+    # {1,2,3}, input an advice cell behind a complex selector (the C02-c demo circuit): q*a + (1-q)*1
+    "st-123-mux-adv": _st([{"rows": [[1], [2], [3]]}], [{"table": 0, "sel": "mux", "rows": 3, "inputs": [[[_a(0)]]]}], 1),
+    # {1,2,3}, no selector, input the linear expression a0 + 2*a1 on every usable row
+    "st-123-none-lin": _st([{"rows": [[1], [2], [3]]}], [{"table": 0, "sel": "none", "inputs": [[[_a(0)], [["k", 2], _a(1)]]]}], 2),
+    # {(1,5),(2,6)}: two table columns (theta compression), selector, second input a1 + 3*a2
+    "st-pairs-mux-lin": _st([{"rows": [[1, 5], [2, 6]]}],
+                            [{"table": 0, "sel": "mux", "rows": 2, "inputs": [[[_a(0)]], [[_a(1)], [["k", 3], _a(2)]]]}], 3),
+    # {(1,5),(2,6)}, no selector, two advice cells
+    "st-pairs-none-adv": _st([{"rows": [[1, 5], [2, 6]]}], [{"table": 0, "sel": "none", "inputs": [[[_a(0)]], [[_a(1)]]]}], 2),
+    # CONTROL: the table contains the zero tuple (as the real chips' tables do); q*a with a complex selector
+    "st-zero-mul-ctl": _st([{"rows": [[0], [1], [2]]}], [{"table": 0, "sel": "mul", "rows": 2, "inputs": [[[_a(0)]]]}], 1),
+    # CONTROL, two columns, no selector: {(0,0),(1,5)}
+    "st-zero-pairs-none-ctl": _st([{"rows": [[0, 0], [1, 5]]}], [{"table": 0, "sel": "none", "inputs": [[[_a(0)]], [[_a(1)]]]}], 2),
+    # a table of length 1
+    "st-len1-mux": _st([{"rows": [[7]]}], [{"table": 0, "sel": "mux", "rows": 1, "inputs": [[[_a(0)]]]}], 1),
+    # a table filling all usable rows but one (exactly one padding row), input a0 + a1
+    "st-fullbut1-mux": _st([{"ncols": 1, "len_from_usable": -1}], [{"table": 0, "sel": "mux", "rows": 2, "inputs": [[[_a(0)], [_a(1)]]]}], 2),
+    # two tables declared (1 column, 2 columns), assigned in the opposite order, two lookups, plus an ordinary gate with a
+    # complex selector of its own (selector indices 0,1,2: a mixed-up selector replacement shows)
+    "st-two-tables": _st([{"rows": [[1], [2], [3]]}, {"rows": [[1, 5], [2, 6]]}],
+                         [{"table": 1, "sel": "mux", "rows": 1, "inputs": [[[_a(0)]], [[_a(1)]]]},
+                          {"table": 0, "sel": "mux", "rows": 2, "inputs": [[[_a(2)], [["k", 2], _a(0)]]]}], 5,
+                         gates=[{"sel": "cmul", "cons": [{"prods": [[_a(3), _a(3)]], "out": _a(4)}]}], assign_order=[1, 0]),
+}
+
+
+def random_static_shape(rnd):
+    """A seeded static-table member: 1-2 table columns, 1..6 distinct rows, zero tuple first with probability 0.3,
+    selector form mux / none (mul only for zero-first tables), inputs a_j or a_j + c*a_extra."""
+    ncols = rnd.randint(1, 2)
+    length = rnd.randint(1, 6)
+    rows = []
+    while len(rows) < length:
+        r = [rnd.randint(1, 30) for _ in range(ncols)]
+        if r not in rows:
+            rows.append(r)
+    zero_first = rnd.random() < 0.3
+    if zero_first:
+        rows[0] = [0] * ncols
+    sel = rnd.choice(["mux", "none", "mul"] if zero_first else ["mux", "none"])
+    inputs, nadv = [], ncols
+    for j in range(ncols):
+        inp = [[_a(j)]]
+        if rnd.random() < 0.5:
+            inp.append([["k", rnd.randint(2, 5)], _a(nadv)])
+            nadv += 1
+        inputs.append(inp)
+    lk = {"table": 0, "sel": sel, "inputs": inputs}
+    if sel != "none":
+        lk["rows"] = rnd.randint(1, 3)
+    return _st([{"rows": rows}], [lk], nadv)
+
+
+def static_members():
+    members = dict(STATIC_SHAPES)
+    rnd = random.Random(2000 + core.seed())
+    for i in range(2 if core.tier() == "quick" else 24):
+        members[f"st-seeded{i}"] = random_static_shape(rnd)
+    return members
+
+
+def static_table_fixed_index(shape, t, j):
+    """index of the fixed column behind column j of static table t: the table columns are allocated after the shape's
+    own fixed columns and the constant column, tables in declared order"""
+    base = shape.get("nfix", 0) + (1 if shape.get("const_col") else 0)
+    for tt in shape["tables"][:t]:
+        base += tt.get("ncols") or len(tt["rows"][0])
+    return base + j
+
+
+def static_expected_column(rows, j, n, usable):
+    """the declared table column: the rows, then the first row's value up to the last usable row, 0 on the rest"""
+    return [rows[i][j] if i < len(rows) else (rows[0][j] if i < usable else 0) for i in range(n)]
+
+
+def static_cheat_tuple(rows):
+    """a tuple that is NOT a row of the declared table: the zero tuple, or (max+1, ..) when the table contains it"""
+    nc = len(rows[0])
+    if [0] * nc not in rows:
+        return [0] * nc
+    return [max(max(r) for r in rows) + 1] * nc
+
+
+def static_real(member, lookup=None, tup=None):
+    """the shape on the real stack (Fq, KZG, Blake2b, MockProver); optionally lookup `lookup` looks `tup` up on its first
+    enabled row. returns (mock_accepts, real_accepts, text). A proof the real prover cannot produce counts as rejected."""
+    shape = dict(member["shape"])
+    if lookup is not None:
+        shape["lkcheat"] = [lookup, [str(int(v)) for v in tup]]
+    rd = sx("real", shape=shape, k=member.get("k") or 4, np=1, nbc=0, lens=member["lens"] or [0])
+    mock_ok = all(x == "Ok(())" for x in rd.get("mock_prover", []))
+    real_ok = rd.get("accepted") is True
+    txt = (f"MockProver {rd.get('mock_prover', ['?'])[0][:110]} ; real prover+verifier: "
+           f"{rd.get('verdict') or ('no proof: ' + str(rd.get('create_proof_error')))}")
+    return mock_ok, real_ok, txt
+
+
+def static_tuple_replay(member, tables_vk, tables_ref, ref_name):
+    """tables_*: per static lookup index the list of tuples on the usable rows (vk side / reference side). A tuple in
+    exactly one of them is looked up on the real stack: reproduced iff MockProver (or the declaration) and the real
+    verifier disagree on it. returns 1 / 0 / None (no tuple difference)."""
+    tried = False
+    for li, (tv, tr) in enumerate(zip(tables_vk, tables_ref)):
+        sv, sr = {tuple(t) for t in tv}, {tuple(t) for t in tr}
+        for tup in sorted(sv - sr)[:2]:
+            tried = True
+            mock_ok, real_ok, txt = static_real(member, li, tup)
+            print(f"static lookup {li}: tuple {tup} is a row of the vk's table but not of {ref_name}'s; witness looking it up: {txt}")
+            if real_ok and not mock_ok:
+                return 1
+        for tup in sorted(sr - sv)[:2]:
+            tried = True
+            mock_ok, real_ok, txt = static_real(member, li, tup)
+            print(f"static lookup {li}: tuple {tup} is a row of {ref_name}'s table but not of the vk's; witness looking it up: {txt}")
+            if mock_ok and not real_ok:
+                return 1
+    return 0 if tried else None
